@@ -247,7 +247,7 @@ func (h *c22Harness) run(cs c22Case, pa c16PacketAlpha) {
 		h.violation("rule list loads although the grammar rejects it: "+classes, detail(nil))
 		return
 	case cs.Status == c22Must && !loaded:
-		h.violation("well-formed rule list is refused: "+classes+" ("+c22RuleNo.ReplaceAllString(strings.SplitN(err.Error(), "`", 2)[0], "rule #N")+")", detail(nil))
+		h.violation("well-formed rule list is refused ("+c22RuleNo.ReplaceAllString(strings.SplitN(err.Error(), "`", 2)[0], "rule #N")+")", detail(nil))
 		return
 	}
 	if !loaded || cs.Unspec {
@@ -281,7 +281,7 @@ func (h *c22Harness) run(cs c22Case, pa c16PacketAlpha) {
 				for _, r := range cs.Rules {
 					rs = append(rs, r.String())
 				}
-				h.violation("loaded rule "+what+": "+classes, detail(map[string]any{"meaning_of_text": rs, "peer": p.String(), "packet": c16PktString(pr),
+				h.violation(fmt.Sprintf("loaded rule %s [%s packet%s; reference: %s]", what, c16ProtoName(pr.Pkt.Protocol), c16FragWord(pr.Pkt), c16RefWhy(w.Node, cs.Rules, p, pr.Pkt, pr.Incoming)), detail(map[string]any{"meaning_of_text": rs, "peer": p.String(), "packet": c16PktString(pr),
 					"impl_allows": got, "reference_allows": want, "reference_reason": c16RefWhy(w.Node, cs.Rules, p, pr.Pkt, pr.Incoming), "node": fmt.Sprintf("%+v", w.Node)}))
 				return
 			}
@@ -620,16 +620,27 @@ func TestVerifC22(t *testing.T) {
 			var rl [][]string
 			var rules []c16Rule
 			var classes []string
+			var sts []c22Status
 			st, unspec := c22Must, false
 			for _, spec := range []c22RuleSpec{small[i/len(small)], small[i%len(small)]} {
 				lines, s1, u1, cl, rule := spec.compose(inbound)
 				rl = append(rl, lines)
 				rules = append(rules, rule)
 				classes = append(classes, cl)
+				sts = append(sts, s1)
 				if s1 == c22Reject || (s1 == c22Either && st == c22Must) {
 					st = s1
 				}
 				unspec = unspec || u1
+			}
+			if st != c22Must { // name only the rules that decide the status of the list
+				var deciding []string
+				for k, s1 := range sts {
+					if s1 == st {
+						deciding = append(deciding, classes[k])
+					}
+				}
+				classes = deciding
 			}
 			h.run(c22Case{Text: c22Render(inbound, rl), Inbound: inbound, Status: st, Unspec: unspec, Classes: classes, Rules: rules}, pa)
 			h.count("rule_lists_of_two", 1)
